@@ -111,7 +111,7 @@ theorem C07_wiring :
     Sso.Generated.skel_auth_validRedirectURI =
       ["call:Parse", "if{", "return", "}", "call:Hostname", "call:ContainsAny", "if{", "return", "}", "range{", "call:Hostname", "call:HasSuffix", "call:Hostname", "call:TrimLeft", "if{", "return", "}", "}", "return"] ∧
     Sso.Generated.skel_auth_validateRedirectURI =
-      ["func{", "call:GetActionTag", "call:Sprintf", "call:ParseForm", "if{", "call:Error", "call:ErrorResponse", "return", "}", "call:Get", "call:validRedirectURI", "if{", "call:append", "call:Incr", "call:ErrorResponse", "return", "}", "call:f", "}", "return"] ∧
+      ["func{", "call:ParseForm", "if{", "call:Error", "call:ErrorResponse", "return", "}", "call:Get", "call:validRedirectURI", "if{", "call:ErrorResponse", "return", "}", "call:f", "}", "return"] ∧
     Sso.Generated.skel_auth_redirectURLSignature =
       ["call:?", "call:New", "call:?", "call:Write", "call:Unix", "call:Sprint", "call:?", "call:Write", "call:Sum", "return"] := by decide
 
